@@ -143,6 +143,33 @@ def run(rep, facts, tier):
                 'forwards its width and current_byteorder() to %s' % short(inner) if ok else
                 '%s does not forward (width, current byte order) to %s: %s' % (short(wrap), short(inner), [(short(c[0]), c[1], c[2]) for c in calls]),
                 wrap, f.j['span'])
+    # failure modes of the packers: a field the reader words can produce must be packable.  The packers fail only the way
+    # every word can (stack underflow / wrong operand type / stack limit) and, for floats, on an unsupported width - the
+    # same test the float reader has.  Any other error constructed on the way (helpers looked through) rejects values.
+    from .. import inline
+    V = inline.View(fx)
+    PACK_FAIL_OK = ('state::State::pop_data', 'cell::Cell::to_xint', 'cell::Cell::to_real', 'cell::Cell::to_usize', 'state::State::push_data',
+                    'bitstr_ext::current_byteorder', 'bitstr_ext::pack_int_bo', 'bitstr_ext::pack_float_bo')
+    for pk in ('bitstr_ext::pack_int_bo', 'bitstr_ext::pack_float_bo', 'bitstr_ext::pack_int', 'bitstr_ext::pack_float'):
+        fx.need(pk)
+        f = V(pk)
+        bad = []
+        for bb, t in f.calls():
+            c = callee_of(t)
+            if c in fx.fns and 'Result<' in fx.fns[c].local_ty(0) and c not in PACK_FAIL_OK:
+                bad.append('calls fallible %s' % short(c))
+        for bb in f.reachable_blocks():
+            for st in f.blocks[bb]['stmts']:
+                if st['k'] == 'assign' and st['rv']['k'] == 'agg' and st['rv'].get('adt') == 'error::Xerr' and not st.get('exp'):
+                    bad.append('constructs Xerr::%s' % st['rv'].get('variant'))
+                if st['k'] == 'assign' and st['rv']['k'] == 'agg' and st['rv'].get('adt') == 'core::result::Result' and st['rv'].get('variant') == 'Err':
+                    e = expr_str(f.expr_of_operand(st['rv']['fields'][0]), -30)
+                    if 'bitstr_ext::float_len_err' not in e:   # the unsupported-width error shared with read_float
+                        bad.append('returns Err(%s)' % e[:40])
+        rep.add('C07.R1', 'C07.R1:packer-failure-modes:%s' % pk, not bad,
+                'fails only on stack / operand-type errors%s' % (' and unsupported float width' if 'float' in pk else '') if not bad else
+                '%s has a failure mode of its own (%s): some (width, value) the matching reader word produces cannot be packed back'
+                % (short(pk), '; '.join(sorted(set(bad)))), pk, f.j['span'])
     # generic words
     GENERIC = {'int': 'bitstr_ext::read_signed', 'uint': 'bitstr_ext::read_unsigned', 'float': 'bitstr_ext::read_float',
                'int!': 'bitstr_ext::pack_int', 'uint!': 'bitstr_ext::pack_int', 'float!': 'bitstr_ext::pack_float_bo'}
